@@ -5,6 +5,7 @@
 // The other families live in C17_sum.cpp, C17_math.cpp, C17_cont.cpp; the generic pair/triple checker
 // is C17_common.hpp.
 #include <C17_common.hpp>
+#include <C17_elem.hpp>
 
 #include <fcppt/make_cref.hpp>
 #include <fcppt/make_recursive.hpp>
@@ -708,5 +709,7 @@ int main(int argc, char **argv)
   register_sums();
   register_math();
   register_containers();
+  register_elem_sums();
+  register_elem_containers();
   return vrt::run(argc, argv);
 }
